@@ -158,6 +158,18 @@ os.makedirs(os.path.join(HERE, "family"), exist_ok=True)
 with open(os.path.join(HERE, "family", "family.manifest.json"), "w") as f:
     json.dump(manifest, f, indent=1); f.write("\n")
 
+# ---- the same family as a spec for the ROOT module's generator --------------------------
+# (same JSON shapes under other top-level names; the root module knows neither custom typerefs - Temp and Stamp are
+# plain typerefs there - nor partial_update with returnEntity)
+import copy
+rres = copy.deepcopy(resources)
+for r in rres:
+    for me in r["methods"]:
+        if me.get("name") == "partial_update" and me.get("returnEntity"):
+            me["returnEntity"] = False
+with open(os.path.join(HERE, "family", "root.spec.json"), "w") as f:
+    json.dump({"dataTypes": types, "resources": rres}, f, indent=1); f.write("\n")
+
 # ---- the small manifest used by the generator-under-faults scenario (S6) ----
 small = {"packageRoot": "vscratch/small", "dependencyDataTypes": [],
          "inputDataTypes": [t for t in types if list(t.values())[0]["name"] in ("Color", "Inner", "Meta", "Name")],
